@@ -240,6 +240,12 @@ fn truncate_json(v: &serde_json::Value) -> serde_json::Value {
 impl Check {
     /// Parse `--tier quick|thorough`, `--replay <file>`; env VERIF_SEED, VERIF_TIER.
     pub fn from_args(id: &'static str, level: &'static str) -> Self {
+        // Every tracing event of the code under test is formatted and thrown away: the arguments
+        // of a log line are evaluated only when a subscriber listens, and an application always
+        // has one (`VH_NO_TRACING=1` switches it off).
+        if std::env::var_os("VH_NO_TRACING").is_none() {
+            let _ = tracing_subscriber::fmt().with_max_level(tracing_subscriber::filter::LevelFilter::TRACE).with_writer(std::io::sink).try_init();
+        }
         let args: Vec<String> = std::env::args().collect();
         let mut tier = match std::env::var("VERIF_TIER").as_deref() {
             Ok("thorough") => Tier::Thorough,
